@@ -49,16 +49,59 @@ def guard_len_eq(ctx, fn, bb):
     return bool(ok and a), "copy_from_slice into a fixed-size array without a dominating length test on the agent-supplied slice"
 
 
+def position_private(ctx):
+    """Typestate of the read cursor: `Cursor.position` is written only by Cursor's own methods (each write behind the bounds
+    test of that read), so `position <= len` is an invariant and `len - position` cannot underflow.  Returns the offending
+    sites (empty list = invariant holds)."""
+    db = ctx.db
+    cached = getattr(ctx, "_c27_pos", None)
+    if cached is not None:
+        return cached
+    bad = []
+    for f in db.all_fns():
+        if f["crate"] not in ("radicle_ssh", "radicle_crypto", "radicle", "radicle_cli", "radicle_node", "radicle_remote_helper"):
+            continue
+        for bb, j, s_ in rules.field_writes(f, "position", r"radicle_ssh::encoding::Cursor"):
+            rk = db.root_of(f)["key"]
+            if not re.search(r"^radicle_ssh::encoding::Cursor::", rk):
+                bad.append(rules.where(f, bb, j))
+    ctx._c27_pos = bad
+    return bad
+
+
 def guard_cursor(ctx, fn, bb):
-    """Cursor reads: slicing behind `position + n <= len` / `position < len`."""
+    """Cursor reads: slicing behind `position + n <= len` / `position < len`, or behind `n <= remaining()` when
+    `remaining() = len - position` is protected by the cursor's typestate (position written only by its own methods)."""
     def inb(f):
         return f[0] == "cmp" and f[1] in ("Le", "Lt") and "position" in nshow(f[2]) and "len" in nshow(f[3])
     ok, a, bad = rules.dom_check(ctx.db, fn, [bb], inb)
-    return bool(ok and a), "cursor read without a dominating bounds test"
+    if ok and a:
+        return True, ""
+
+    def rem(f):
+        if f[0] != "cmp":
+            return False
+        l, r = nshow(f[2]), nshow(f[3])
+        return (f[1] in ("Le", "Lt") and "Cursor::remaining(" in r) or (f[1] in ("Ge", "Gt") and "Cursor::remaining(" in l)
+    ok2, a2, bad2 = rules.dom_check(ctx.db, fn, [bb], rem)
+    if ok2 and a2:
+        offenders = position_private(ctx)
+        if not offenders:
+            return True, ""
+        return False, "the bounds test uses `len - position`, but Cursor.position is also written outside the cursor's own methods (%s): it can exceed the buffer length" % offenders[0]
+    return False, "cursor read without a dominating bounds test"
+
+
+def guard_remaining(ctx, fn, bb):
+    offenders = position_private(ctx)
+    if offenders:
+        return False, "`len - position` can underflow: Cursor.position is written outside the cursor's own methods (%s)" % offenders[0]
+    return True, ""
 
 
 VEC = "writes to an in-memory Vec never fail"
 TABLE = [
+    (r"^radicle_ssh::encoding::Cursor::remaining$", r"^sub:SubWithOverflow#0$", "GUARDED", "position <= len is the cursor's invariant (position is written only by its own bounds-checked reads)", guard_remaining),
     (r"Encoding>::write_len$", r"^sub:SubWithOverflow#0$", "SAFE", "encode side: the request buffer starts with the 4 placeholder bytes written by `resize(4, 0)` in every caller (local data, not agent input)", None),
     (r"AgentClient::(request_identities|sign|query_extension)$", r"index:index vec::Vec\[usize\]", "GUARDED", "response tested non-empty first", guard_nonempty),
     (r"AgentClient::prepare_sign_request$", r"unwrap:", "SAFE", VEC, None),
